@@ -47,7 +47,7 @@ void l_ppm_roundtrip(void) {
   size_t in_k, in_wk;
   uint8_t in_w, in_h;
   verif_exc = 0;
-  g_wpos = 0; g_wcalls = 0; g_wseen = 0; g_fpos = 0; g_reads = 0;
+  g_wpos = 0; g_wcalls = 0; g_wseen = 0; g_fpos = 0; g_reads = 0; g_alloc = 0; g_freed = 0;
   size_t B = C06_CW / 8, C = C06_PS(C06_ALPHA);
   if (!(1 <= in_w && in_w <= C06_DIM && 1 <= in_h && in_h <= C06_DIM && in_k < (size_t)in_w * in_h * C * B)) return;
   Image* a = malloc(sizeof(Image));
@@ -68,7 +68,7 @@ void l_ppm_roundtrip(void) {
   g_bk = in_k;
   g_bv = g_wv;
   Image_load_ppm_tail(b, (FILE*)0, Format_COLOR_PPM, in_w, in_h, C06_ALPHA, C06_CW, a->max_value);
-  __CPROVER_assert(verif_exc == 0 || verif_exc == EXC_io_error || verif_exc == EXC_bad_alloc, "only a short file or a failed allocation reject it");
+  __CPROVER_assert(verif_exc == 0 || verif_exc == EXC_io_error || verif_exc == EXC_runtime_error || verif_exc == EXC_bad_alloc, "only a short file or a failed allocation reject it");
   if (verif_exc == 0) {
     __CPROVER_assert(b->width == a->width && b->height == a->height && b->has_alpha == a->has_alpha && b->channel_width == a->channel_width &&
                      b->max_value == a->max_value, "dimensions, alpha flag, channel width reproduced");
